@@ -137,7 +137,7 @@ type resolved struct {
 	// reaches such an entry before any match has no defined settings.
 	Unresolvable bool
 	FR           [20]byte             // validator-level fee recipient (proposal preparation)
-	Relays map[int]relaySetting // by relay index
+	Relays       map[int]relaySetting // by relay index
 }
 
 // identity is who is being resolved: key index and (for accounts vouch holds)
